@@ -44,7 +44,7 @@ class C16(core.Check):
                   "raise_table_nontrivial.  The raise-site scan is heuristic; the correspondence fuzz (escaped class; for whole complete deliveries also answers sent and connection "
                   "kept/closed) backs it.  Socket handling, WSGI responder and BareServer steward logic are covered by the fuzz + oracle only.")
     level_note = ("Trusted: Lean kernel; translator (AST raise-site scan is a heuristic, stated); scripted sockets stand for the kernel; urllib verdicts are parameters; "
-                  "name resolution in Client.redirect is scripted.")
+                  "name resolution in Client.redirect is scripted (IDNA encoding of the host as the runtime does it, then a fixed address).")
     quick_n = 500
     thorough_n = 20000
     rule = ("cases: (srv) 1-3 connections to the WSGI Server or the BareServer, each a pipeline of grammar-generated requests, a near-valid table entry (colon without space, "
@@ -74,6 +74,17 @@ class C16(core.Check):
             cs.append(("cli", d, (), True, "http"))
             cs.append(("cli", d, (5, 20), False, "http"))
         cs.append(("cli", RESP_NEAR[5], (), False, "https"))    # F49: https -> http refused
+        for loc in (b"http://127.0.0.1:8080//other.example/x", b"http://127.0.0.1:8080//127.0.0.1:99999/x", b"http://a..b/x", b"http://" + b"x" * 64 + b".com/",
+                    b"http://\xe9.example/x", b"http://u:p@127.0.0.1:8080/n", b"https://127.0.0.1:8443/x", b"http://127.0.0.1:8081/n", b"//127.0.0.1:8080/n",
+                    b"http://127.0.0.1:8080/\xe9?\xe9=1", b"http://[::1]:8080/x", b"http://127.0.0.1:8080/%zz?a=%zz"):
+            d = b"HTTP/1.1 301 M\r\nLocation: " + loc + b"\r\nContent-Length: 0\r\n\r\n"
+            cs.append(("cli", d, (), False, "http"))
+            cs.append(("cli", d + b"HTTP/1.1 200 OK\r\nContent-Length: 2\r\n\r\nhi", (len(d),), False, "http"))
+        sse = b"HTTP/1.1 200 OK\r\nContent-Type: text/event-stream\r\n\r\n"
+        for ident in ("7", "\u20ac", "\u65e5\u672c", "\U0001f600", "\xff", "a b", "\x00"):    # Last-Event-ID on reconnect
+            cs.append(("clir", sse + b"id: " + ident.encode("utf-8") + b"\ndata: x\n\n", ()))
+        cs.append(("clir", b"HTTP/1.1 200 OK\r\nContent-Length: 2\r\n\r\nhi", ()))
+        cs.append(("clir", sse + b"id: \xff\xfe\ndata: x\n\nretry: 5\n\n", (40,)))
         return cs
 
     def _conn(self, rng):
@@ -101,7 +112,19 @@ class C16(core.Check):
                 yield ("srv", rng.choice(["wsgi", "bare"]), tuple(self._conn(rng) for _ in range(rng.choice([1, 2, 2, 3]))))
             elif k < 0.75:
                 m = rng.random()
-                if m < 0.4:
+                if m < 0.35:        # redirect with a Location from the URL grammar; sometimes the redirected exchange goes on
+                    d = hp.gen_redirect(rng)
+                    if rng.random() < 0.4:
+                        d2, _ = hp.gen_response(rng) if rng.random() < 0.6 else (hp.gen_redirect(rng), False)
+                        yield ("cli", d + d2, (len(d),), rng.random() < 0.3, "https" if rng.random() < 0.15 else "http")
+                        continue
+                    yield ("cli", d, hp.cuts_for(rng, d, rng.choice(["none", "two"])), rng.random() < 0.3, "https" if rng.random() < 0.15 else "http")
+                    continue
+                if m < 0.5:         # event stream, far side closes, client reconnects and re-requests with Last-Event-ID
+                    d, _ = hp.gen_response(rng, sse=hp.gen_sse_stream(rng, invalid_utf8=rng.random() < 0.3))
+                    yield ("clir", d, hp.cuts_for(rng, d, rng.choice(["none", "two", "uniform", "term"])))
+                    continue
+                if m < 0.6:
                     d = rng.choice(RESP_NEAR)
                 elif m < 0.7:
                     d, _ = hp.gen_response(rng, sse=hp.gen_sse_stream(rng, invalid_utf8=True) if rng.random() < 0.3 else None)
@@ -141,7 +164,7 @@ class C16(core.Check):
                     if a[1][0] != multi[1][i]:
                         bad.append("sibling-not-served-as-alone")
                         break
-        elif k == "cli":
+        elif k in ("cli", "clir"):
             esc, resps, nev = obs[0]
             if esc is not None:
                 bad.append("exception-escaped-client-service")
@@ -162,8 +185,12 @@ class C16(core.Check):
             f.append(f"conns:{len(case[2])}")
             for n, o in multi[1]:
                 f.append(f"conn:{'answered' if n else 'silent'}:{'open' if o else 'closed'}")
-        elif case[0] == "cli":
+        elif case[0] in ("cli", "clir"):
             esc, resps, nev = obs[0]
+            if case[0] == "clir":
+                f.append("cli:reconnect")
+            if b"ocation" in case[1]:
+                f.append("cli:location")
             for st, er in resps:
                 f.append(f"cli:resp:{'errored' if er else 'ok'}:{st // 100 if st else 0}xx")
             if not resps:
